@@ -10,6 +10,10 @@
 //!   drawchk.<Dist> -     <params…> <seed> <n>        -> <#non-finite> <#unsupported> <#panics> <det T|F> <len T|F> <seq T|F>
 //!        det = two runs with the same seed give bit-identical draws; len = sample(n).len() == n (fresh generator, same seed);
 //!        seq = sample(n) is bit-identical to the n successive draws with the same seed (informative, NOT required by C04)
+//!   seedsample.<Dist> -  <params…> <seed> <n>        -> L<n> value…   (`sample(n)` with `Xoshiro256Plus::seed_from_u64(seed)`; for the
+//!        statistical law test of props/cases_c04.py: Beta Cauchy ChiSquared Exponential Gamma Gaussian Gev InvChiSquared InvGamma
+//!        Kumaraswamy Laplace LogNormal Pareto ScaledInvChiSquared Uniform UnitPowerLaw (f64), Poisson Binomial NegBinomial Geometric
+//!        BetaBinomial (u32))
 //!
 //! params:  Bernoulli p | Laplace mu b | Gev loc scale shape | Kumaraswamy a b | UnitPowerLaw alpha | Geometric p |
 //!          DiscreteUniform a b (ints of the kind) | Uniform a b | KsTwoAsymptotic (none) | Categorical L<k> ln_w… |
@@ -183,6 +187,26 @@ fn gauss_valid(g: &Gaussian) -> bool {
     Gaussian::new(g.mu(), g.sigma()).is_ok()
 }
 
+macro_rules! seed_real {
+    ($d:expr, $a:expr) => {{
+        let d = $d;
+        let seed = $a.n();
+        let n = $a.n() as usize;
+        let mut rng = Xoshiro256Plus::seed_from_u64(seed);
+        let xs: Vec<f64> = d.sample(n, &mut rng);
+        tok(&xs)
+    }};
+}
+macro_rules! seed_u32 {
+    ($d:expr, $a:expr) => {{
+        let d = $d;
+        let seed = $a.n();
+        let n = $a.n() as usize;
+        let mut rng = Xoshiro256Plus::seed_from_u64(seed);
+        let xs: Vec<u32> = d.sample(n, &mut rng);
+        tok(&xs)
+    }};
+}
 macro_rules! chk_real {
     ($d:expr, $a:expr) => {{
         let d = $d;
@@ -368,6 +392,28 @@ pub fn dispatch(op: &str, kind: &str, a: &mut Args) -> Option<String> {
             // Empirical has no `Support` impl: "supported" = the value is one of the data points
             out3(&x, true, rng.consumed())
         }
+        // -------------------------------------------------------------------------------------------- seeded samples
+        "seedsample.Beta" => seed_real!(Beta::new_unchecked(a.f(), a.f()), a),
+        "seedsample.Cauchy" => seed_real!(Cauchy::new_unchecked(a.f(), a.f()), a),
+        "seedsample.ChiSquared" => seed_real!(ChiSquared::new_unchecked(a.f()), a),
+        "seedsample.Exponential" => seed_real!(Exponential::new_unchecked(a.f()), a),
+        "seedsample.Gamma" => seed_real!(Gamma::new_unchecked(a.f(), a.f()), a),
+        "seedsample.Gaussian" => seed_real!(Gaussian::new_unchecked(a.f(), a.f()), a),
+        "seedsample.Gev" => seed_real!(Gev::new_unchecked(a.f(), a.f(), a.f()), a),
+        "seedsample.InvChiSquared" => seed_real!(InvChiSquared::new_unchecked(a.f()), a),
+        "seedsample.InvGamma" => seed_real!(InvGamma::new_unchecked(a.f(), a.f()), a),
+        "seedsample.Kumaraswamy" => seed_real!(Kumaraswamy::new_unchecked(a.f(), a.f()), a),
+        "seedsample.Laplace" => seed_real!(Laplace::new_unchecked(a.f(), a.f()), a),
+        "seedsample.LogNormal" => seed_real!(LogNormal::new_unchecked(a.f(), a.f()), a),
+        "seedsample.Pareto" => seed_real!(Pareto::new_unchecked(a.f(), a.f()), a),
+        "seedsample.ScaledInvChiSquared" => seed_real!(ScaledInvChiSquared::new_unchecked(a.f(), a.f()), a),
+        "seedsample.Uniform" => seed_real!(Uniform::new_unchecked(a.f(), a.f()), a),
+        "seedsample.UnitPowerLaw" => seed_real!(UnitPowerLaw::new_unchecked(a.f()), a),
+        "seedsample.Poisson" => seed_u32!(Poisson::new_unchecked(a.f()), a),
+        "seedsample.Binomial" => seed_u32!(Binomial::new_unchecked(a.n(), a.f()), a),
+        "seedsample.NegBinomial" => seed_u32!(NegBinomial::new_unchecked(a.f(), a.f()), a),
+        "seedsample.Geometric" => seed_u32!(Geometric::new_unchecked(a.f()), a),
+        "seedsample.BetaBinomial" => seed_u32!(BetaBinomial::new_unchecked(a.n() as u32, a.f(), a.f()), a),
         // -------------------------------------------------------------------------------------------- seeded checks
         "drawchk.Bernoulli" => {
             let d = Bernoulli::new_unchecked(a.f());
